@@ -267,16 +267,38 @@ def _shape(model: Model, S: RuleResult):
         S.bad(init, enclosing_stmt(shp), "the Jacobian operator must have shape (numel(output), numel(input))", what=what)
     for q, inn, outn, gshape in (("_Jac._mv", "nin", "nout", "inshape"), ("_Jac._rmv", "nout", "nin", "outshape")):
         f = model.func(JAC, q)
-        src = ast.unparse(f.node)
         arg = f.params()[1]
-        a = "%s.reshape(-1, self.%s)" % (arg, inn) in src
-        b = "self.%s)" % outn in src and ".reshape(*%s.shape[:-1], self.%s)" % (arg, outn) in src
-        c = ".reshape(self.%s)" % gshape in src
-        what = "%s: input flattened to (-1, %s), cotangent reshaped to %s, result to (..., %s)" % (q, inn, gshape, outn)
-        if a and b and c:
+        # every reshape that mentions one of the operator's size attributes, classified by what is reshaped
+        seen_roles = {}
+        wrong = []
+        for c in own_nodes(f.node):
+            if not (isinstance(c, ast.Call) and isinstance(c.func, ast.Attribute) and c.func.attr in ("reshape", "view")):
+                continue
+            attrs = [n.attr for a in c.args for n in ast.walk(a) if isinstance(n, ast.Attribute) and isinstance(n.value, ast.Name) and n.value.id == f.params()[0]
+                     and n.attr in ("nin", "nout", "inshape", "outshape")]
+            if not attrs:
+                continue
+            recv = c.func.value
+            txt_args = [ast.unparse(a) for a in c.args]
+            if isinstance(recv, ast.Name) and recv.id == arg and txt_args and txt_args[0] == "-1":
+                role, want = "input flattened to (-1, n)", inn
+            elif any("%s.shape[:-1]" % arg in t for t in txt_args):
+                role, want = "result reshaped to (..., n)", outn
+            elif len(attrs) == 1 and attrs[0] in ("inshape", "outshape"):
+                role, want = "cotangent reshaped", gshape
+            else:
+                continue
+            seen_roles[role] = attrs[-1]
+            if attrs[-1] != want:
+                wrong.append((c, role, attrs[-1], want))
+        what = "%s: %s" % (q, ", ".join("%s with self.%s" % kv for kv in sorted(seen_roles.items())))
+        if wrong:
+            c, role, got, want = wrong[0]
+            S.bad(f, enclosing_stmt(c), "reshape roles of %s are inconsistent with a (nout x nin) operator: %s uses self.%s, expected self.%s" % (q, role, got, want), what=what)
+        elif len(seen_roles) == 3:
             S.ok(f.fq, what)
         else:
-            S.bad(f, f.node, "reshape roles of %s are inconsistent with a (nout x nin) operator" % q, what=what)
+            S.undecided(f, f.node, "cannot find the three reshapes (input, cotangent, result) of %s (found %s)" % (q, sorted(seen_roles)))
     # yparam / v roles in _mv: differentiate dfdy w.r.t. v with grad_outputs from gy (double-backward trick)
     mv = model.func(JAC, "_Jac._mv")
     grads = [c for c in own_nodes(mv.node) if ac.is_autograd_grad(c)]
@@ -427,8 +449,8 @@ def _connect_unconditional(model: Model, G: RuleResult):
     out, params = cg.params()[:2]
     rets = [r for r in own_nodes(cg.node) if isinstance(r, ast.Return)]
     conditional = [r for r in rets if any(isinstance(a, (ast.If, ast.Try, ast.While, ast.For)) for a in ancestors(r))]
-    uses = lambda r: r.value is not None and any(isinstance(x, ast.Name) and x.id == params for x in ast.walk(r.value)) and \
-        any(isinstance(x, ast.Name) and x.id == out for x in ast.walk(r.value))
+    cdefs = function_defs(cg.node)
+    uses = lambda r: r.value is not None and {params, out} <= def_use_closure(cg.node, names_loaded(r.value), cdefs)
     if len(rets) == 1 and not conditional and uses(rets[0]):
         G.ok(cg.fq, "connect_graph has a single unconditional exit that involves every parameter")
     else:
